@@ -637,6 +637,41 @@ def run(ctx):
         run.instance(R9, {"fn": "scan", "obligation": "records selected for deletion: status == Unconfirmed and commitment not among the chain outputs"}, held=held)
         if not held:
             run.finding(Finding(R9, sc.id, "with delete_unconfirmed a scan deletes every Unconfirmed record, also one whose output it has just found on chain (an account that was not refreshed): the funds vanish and the next scan restores them", site=sc.loc(), detail=why))
+    R10 = "C16.R10"
+    run.rule(R10, "with delete_unconfirmed, the reservations released and the transactions cancelled cover the same records: both all of the wallet's, or both the scanned range", floor=1)
+    if sc:
+        cls10 = _classification(sc, db) or {}
+        heads10 = [b for b, t in sc.calls() if (t.get("f") or "").endswith("Iterator::next") and vf.has_call(vf.producers(sc, t["a"][0]) | vf.origins(sc, t["a"][0]), S + "collect_chain_outputs") and not vf.has_call(vf.producers(sc, t["a"][0]), "alloc::vec::Vec::<T>::new")]
+        # the vector of Locked records is filled inside the loop over the chain outputs of the scanned range?
+        ranged = False
+        for b, t in cfg.find_calls(sc, "alloc::vec::Vec::<T, A>::push"):
+            vec = vf.strip_clones(sc, t["a"][0])
+            if cls10.get(vec) != "Locked":
+                continue
+            for h in heads10:
+                body = cfg.reach(sc, starts=tuple(sc.succ(h)), cut_nodes=frozenset({h}))
+                if b in body and h in cfg.reach(sc, starts=[b]):
+                    ranged = True
+        # the records whose transactions are cancelled for being unconfirmed come from all wallet records?
+        allrec = False
+        for b, t in sc.calls():
+            if (t.get("f") or "").endswith("Iterator::filter"):
+                base = vf.origins(sc, t["a"][0])
+                cl_ok = False
+                for a_ in t["a"][1:]:
+                    pl = vf.op_place(a_)
+                    for bb in sc.bbs:
+                        for st in bb["s"]:
+                            if st["k"] == "a" and pl and st["d"] == [pl[0], []] and st["r"]["k"] == "agg" and st["r"].get("ak") == "closure":
+                                g = db.fns.get(st["r"]["adt"])
+                                if g and any(x.op == "Eq" and ("agg", OS, "Unconfirmed") in (vf.producers(g, x.l) | vf.producers(g, x.r)) for x in cfg.comparisons(g)):
+                                    cl_ok = True
+                if cl_ok and vf.has_call(base, UPD + "retrieve_outputs"):
+                    allrec = True
+        held = not (ranged and allrec)
+        run.instance(R10, {"fn": "scan", "obligation": "Locked records to release and Unconfirmed records to drop are taken from the same scope", "locked: scanned range only": ranged, "unconfirmed: all records": allrec}, held=held)
+        if not held:
+            run.finding(Finding(R10, sc.id, "with a start height, delete_unconfirmed cancels a transaction because of its unconfirmed output (whatever its height) but releases only the reserved inputs it finds in the scanned range: older inputs stay Locked under a cancelled transaction", site=sc.loc()))
     run.not_decided += [
         "completeness over chain histories ('exactly the outputs of the seed') - depends on range-proof rewinding and the node's paging",
         "equality of the restored totals with the original wallet",
